@@ -391,6 +391,19 @@ def run_case(case, obs):
            'EllipseAnnulusPixelRegion': 'RectangleAnnulusPixelRegion', 'RectangleAnnulusPixelRegion': 'EllipseAnnulusPixelRegion',
            'EllipseAnnulusSkyRegion': 'RectangleAnnulusSkyRegion', 'RectangleAnnulusSkyRegion': 'EllipseAnnulusSkyRegion',
            'PointPixelRegion': 'CirclePixelRegion'}.get(cname)
+    # a class and the class derived from it (point / text, polygon / regular polygon) with the same shared fields are different regions
+    import regions as _r2
+    rel = None
+    if cname in ('PointPixelRegion', 'PointSkyRegion'):
+        rel = getattr(_r2, cname.replace('Point', 'Text'))(region.center, 'label', meta=_copy.deepcopy(region.meta), visual=_copy.deepcopy(region.visual))
+    elif cname in ('TextPixelRegion', 'TextSkyRegion'):
+        rel = getattr(_r2, cname.replace('Text', 'Point'))(region.center, meta=_copy.deepcopy(region.meta), visual=_copy.deepcopy(region.visual))
+    elif cname == 'RegularPolygonPixelRegion':
+        rel = region.to_polygon()
+    if rel is not None:
+        obs.count('parent-vs-derived-class-pairs')
+        eq_bool(obs, region, rel, False, 'eq-ignores-class', f'{cname} == {type(rel).__name__} built from the same fields', 'perturbed-unequal')
+        eq_bool(obs, rel, region, False, 'eq-ignores-class', f'{type(rel).__name__} == {cname} built from the same fields', 'perturbed-unequal')
     if sib and sib != 'CirclePixelRegion':
         s2 = dict(case['region'], cls=sib)
         other = S.build(s2)
